@@ -13,18 +13,22 @@ impl Scenario for C04 {
     }
 
     fn run(&self, seed: u64, ch: Chooser, ctx: &RunCtx) -> RunOut {
+        // one run in three walks the two-party handshake schedules of C05 (sweep first) under the seal-log oracles
+        if ctx.index % 3 == 2 {
+            return l1::c05_for(seed, ch, ctx, ctx.index / 3, true);
+        }
         l1::c04(seed, ch, ctx)
     }
 
     fn budget(&self, tier: Tier) -> (u64, u64) {
         match tier {
-            Tier::Quick => (6000, 120),
-            Tier::Thorough => (150_000, 1500),
+            Tier::Quick => (3 * 4096 + 3000, 120),
+            Tier::Thorough => (3 * 262_144 + 60_000, 1500),
         }
     }
 
     fn rule(&self) -> &'static str {
-        "whole connection lifetimes of a real PeerCrypto pair: handshake by one side or both at once with reordered/duplicated handshake datagrams, then 300-1500 ticks per end (thorough: up to 4000; a rotation cycle is 120 ticks) with rotation messages lost, duplicated, reordered and delayed, a probe sealed in both directions after every step; nonce starts shaped to sit 0-299 seals below a carry boundary of 1-6 low bytes in 60 % of the runs; in half of the runs the counter is afterwards placed 1-40 seals below the 56 bit limit. Oracle over the seal log (every encrypt call of both ends): no (key fingerprint, nonce) twice, strictly increasing per (end, key), the two ends of one key use different top bytes, every key's first nonce is exactly what the generator handed out, past the 56 bit limit the peer opens nothing and below it everything. Non-trivial: more than 10 seals were logged."
+        "two thirds of the runs: whole connection lifetimes of a real PeerCrypto pair: handshake by one side or both at once with reordered/duplicated handshake datagrams, then 300-1500 ticks per end (thorough: up to 4000; a rotation cycle is 120 ticks) with rotation messages lost, duplicated, reordered and delayed, a probe sealed in both directions after every step; nonce starts shaped to sit 0-299 seals below a carry boundary of 1-6 low bytes in 60 % of the runs; in half of the runs the counter is afterwards placed 1-40 seals below the 56 bit limit. Oracle over the seal log (every encrypt call of both ends): no (key fingerprint, nonce) twice, strictly increasing per (end, key), the two ends of one key use different top bytes, every key's first nonce is exactly what the generator handed out, past the 56 bit limit the peer opens nothing and below it everything. One third of the runs: the two-party handshake schedules of C05 (sweep of all schedules of length 4 / 6 over {A initiates, B initiates, deliver oldest/newest, duplicate, drop, tick A, tick B}, then random schedules with forced re-dials) under the same seal-log oracles plus: the two ends of one key install it with opposite nonce halves. Non-trivial: more than 10 seals were logged or a handshake completed."
     }
 
     fn expected_probes(&self) -> Vec<&'static str> {
